@@ -59,10 +59,11 @@ var valPoolBase = []uint64{
 }
 
 type pools struct {
-	vals     []uint64
-	stacks   [][]FrameM
-	creators []*CreatorM
-	states   []string
+	freeInacc bool // the '?' flag is drawn independently of the value (C01 only)
+	vals      []uint64
+	stacks    [][]FrameM
+	creators  []*CreatorM
+	states    []string
 }
 
 func genVal(t *rapid.T, p *pools) uint64 {
@@ -107,8 +108,12 @@ func genArgList(t *rapid.T, p *pools, depth int, budget *int) ArgListM {
 			a.Items = append(a.Items, ArgM{TooLarge: true})
 		default:
 			v := ArgM{Val: genVal(t, p)}
-			// Within one dump the '?' flag is a function of the value (see DESIGN C05).
+			// Within one dump the '?' flag is a function of the value (see DESIGN C05), except
+			// where the check is about the parser alone.
 			v.Inacc = v.Val%7 == 3
+			if p.freeInacc {
+				v.Inacc = oneIn(t, 3, "inaccurate")
+			}
 			a.Items = append(a.Items, v)
 		}
 	}
@@ -272,11 +277,12 @@ type DumpOpts struct {
 	LongLines  bool // occasionally a symbol or path crossing the 16 KiB read buffer
 	PoolHeavy  bool // most goroutines are copies / near copies of pooled stacks
 	NoUnavail  bool
+	FreeInacc  bool // '?' independent of the value: the same value occurs with and without it
 	PlainNames bool // only ASCII symbol/file shapes that survive the console/HTML renderers unchanged
 }
 
 func genPools(t *rapid.T, o DumpOpts) *pools {
-	p := &pools{}
+	p := &pools{freeInacc: o.FreeInacc}
 	nv := rapid.IntRange(2, 8).Draw(t, "poolVals")
 	for i := 0; i < nv; i++ {
 		p.vals = append(p.vals, genVal(t, &pools{}))
